@@ -272,6 +272,11 @@ class Bag(Factory, Container):
             else:
                 raise JsonFormatException(json["name"], "Bag.name")
 
+            if isinstance(json["range"], basestring):
+                range = json["range"]
+            else:
+                raise JsonFormatException(json["range"], "Bag.range")
+
             if json["values"] is None:
                 values = None
 
@@ -284,7 +289,8 @@ class Bag(Factory, Container):
                         else:
                             raise JsonFormatException(nv["w"], f"Bag.values {i} n")
 
-                        if nv["v"] in ("nan", "inf", "-inf") or isinstance(nv["v"], numbers.Real):
+                        # in a bag of strings "inf" and "-inf" are strings like any other, not spellings of numbers
+                        if range != "S" and (nv["v"] in ("nan", "inf", "-inf") or isinstance(nv["v"], numbers.Real)):
                             v = floatOrNan(nv["v"])
                         elif isinstance(nv["v"], basestring):
                             v = nv["v"]
@@ -306,11 +312,6 @@ class Bag(Factory, Container):
 
             else:
                 raise JsonFormatException(json["values"], "Bag.values")
-
-            if isinstance(json["range"], basestring):
-                range = json["range"]
-            else:
-                raise JsonFormatException(json["range"], "Bag.range")
 
             out = Bag.ed(entries, values, range)
             out.quantity.name = nameFromParent if name is None else name
